@@ -489,5 +489,205 @@ theorem sim_end_sync_some {st st' : OrderSt} {cs : CState Content MetaRec WalRec
       rw [hnext]
       exact ⟨hvol, hsyncs, by rw [hph']; exact h.phase, h.ple, fun h1 => absurd h1 hp1, hinv⟩
 
+/-! ## The abstraction of a trace and the simulation theorem -/
+
+/-- the file whose in-flight fsync an End line completes -/
+def syncFile (e : IoEv) : String := if (e.kind == "DirSync") = true then "dir" else e.file
+
+/-- the concurrent events (none or one) a line of the real trace stands for, in the monitor state `st` before it -/
+def absLine (st : OrderSt) (id : Nat) (l : IoEv2) : List (CEv Content MetaRec WalRec LogRec) :=
+  if l.isBegin = true then
+    if isDataKind l.ev.kind = true then
+      (match absEff C id l.ev.kind l.ev.file l.ev.offset with | some eff => [.effBegin id eff] | none => [])
+    else if isDirKind l.ev.kind = true then []
+    else if (l.ev.kind == "Fsync") = true then
+      (match fileOf l.ev.file with | some f => [.fsyncBegin l.thread f] | none => [])
+    else []
+  else
+    if isDataKind l.ev.kind = true then
+      (match firstMatch l.ev st.pend with
+        | some p => if (absP (LogRec := LogRec) C p).isSome = true then [.effEnd p.id] else []
+        | none => [])
+    else if (l.ev.kind == "Fsync" || l.ev.kind == "DirSync") = true then
+      (match fileOf (syncFile l.ev) with | some ff => [.fsyncEnd l.thread ff] | none => [])
+    else []
+
+theorem cAll_opt_fsyncBegin (ph : Nat) (cs : CState Content MetaRec WalRec LogRec) (t : String) (o : Option File) :
+    cAll ordChk ph cs (match o with | some f => [CEv.fsyncBegin t f] | none => []) := by
+  cases o with
+  | none => trivial
+  | some f => exact ⟨trivial, trivial⟩
+
+theorem cAll_opt_fsyncEnd (ph : Nat) (cs : CState Content MetaRec WalRec LogRec) (t : String) (o : Option File) :
+    cAll ordChk ph cs (match o with | some f => [CEv.fsyncEnd t f] | none => []) := by
+  cases o with
+  | none => trivial
+  | some f => exact ⟨trivial, trivial⟩
+
+theorem cAll_opt_effEnd (ph : Nat) (cs : CState Content MetaRec WalRec LogRec) (c : Pend → Bool) (o : Option Pend) :
+    cAll ordChk ph cs (match o with | some p => if c p = true then [CEv.effEnd p.id] else [] | none => []) := by
+  cases o with
+  | none => trivial
+  | some p =>
+    simp only
+    split
+    · exact ⟨trivial, trivial⟩
+    · trivial
+
+/-- **one line**: if the monitor accepts the line, its abstraction passes the order discipline in the corresponding
+state and phase of the concurrent machine, and the states correspond again -/
+theorem orderStep_sim {st st' : OrderSt} {cs : CState Content MetaRec WalRec LogRec} {ph nid : Nat}
+    (h : Sim C st cs ph nid) (l : IoEv2) (hs : orderStep st nid l = .ok st') :
+    cAll ordChk ph cs (absLine C st nid l) ∧
+    Sim C st' (crun cs (absLine C st nid l)) (phRun ph cs (absLine C st nid l)) (nid + 1) := by
+  unfold orderStep at hs
+  simp only at hs
+  unfold absLine
+  by_cases hb : l.isBegin = true
+  · simp only [hb, if_true] at hs ⊢
+    by_cases hd : isDataKind l.ev.kind = true
+    · simp only [hd, if_true] at hs ⊢
+      exact sim_begin_data C h l.ev hd hs
+    · simp only [hd, if_false] at hs ⊢
+      by_cases hdir : isDirKind l.ev.kind = true
+      · simp only [hdir, if_true] at hs ⊢
+        exact ⟨trivial, sim_begin_dir C h l.ev hs⟩
+      · simp only [hdir, if_false] at hs ⊢
+        by_cases hf : (l.ev.kind == "Fsync") = true
+        · simp only [hf, if_true] at hs ⊢
+          injection hs with hs
+          subst hs
+          exact ⟨cAll_opt_fsyncBegin ph cs l.thread _, sim_begin_fsync C h l.ev.file l.thread rfl rfl rfl rfl⟩
+        · simp only [hf, if_false] at hs ⊢
+          refine ⟨trivial, ?_⟩
+          by_cases hds : (l.ev.kind == "DirSync") = true
+          · simp only [hds, if_true] at hs
+            injection hs with hs
+            subst hs
+            refine h.push_sync_none C _ rfl ?_ rfl rfl rfl rfl
+            intro i hi
+            obtain ⟨q, hq, hid, hc⟩ := filter_cov_mem st.pend _ i hi
+            simp only [beq_iff_eq] at hc
+            exact ⟨q, hq, hid, hc⟩
+          · simp only [hds, if_false] at hs
+            injection hs with hs
+            subst hs
+            exact h.mono C
+  · simp only [hb, if_false] at hs ⊢
+    by_cases hd : isDataKind l.ev.kind = true
+    · simp only [hd, if_true] at hs ⊢
+      injection hs with hs
+      subst hs
+      exact ⟨cAll_opt_effEnd ph cs _ _, sim_end_data C h l.ev rfl rfl rfl rfl⟩
+    · simp only [hd, if_false] at hs ⊢
+      by_cases hf : (l.ev.kind == "Fsync" || l.ev.kind == "DirSync") = true
+      · simp only [hf, if_true] at hs ⊢
+        refine ⟨cAll_opt_fsyncEnd ph cs l.thread _, ?_⟩
+        change (match takeSync (syncFile l.ev) l.thread st.syncs with
+          | none => Except.ok st
+          | some (cov, rest) => _) = Except.ok st' at hs
+        cases ht : takeSync (syncFile l.ev) l.thread st.syncs with
+        | none =>
+          rw [ht] at hs
+          injection hs with hs
+          subst hs
+          exact sim_end_sync_none C h _ _ ht
+        | some x =>
+          obtain ⟨cov, rest⟩ := x
+          rw [ht] at hs
+          injection hs with hs
+          subst hs
+          exact sim_end_sync_some C h _ _ cov rest ht rfl rfl rfl rfl
+      · simp only [hf, if_false] at hs ⊢
+        injection hs with hs
+        subst hs
+        exact ⟨trivial, h.mono C⟩
+
+/-- the abstraction of a trace, along the monitor's run -/
+def absTrace : OrderSt → Nat → List IoEv2 → List (CEv Content MetaRec WalRec LogRec)
+  | _, _, [] => []
+  | st, id, l :: rest =>
+    match orderStep st id l with
+    | .error _ => absLine C st id l
+    | .ok st' => absLine C st id l ++ absTrace st' (id + 1) rest
+
+/-- **the whole run**: if the monitor's scan accepts the trace, the abstracted concurrent trace passes the order
+discipline from the corresponding state, and the final states and phases correspond -/
+theorem orderRun_sim (tr : List IoEv2) : ∀ {st stf : OrderSt} {cs : CState Content MetaRec WalRec LogRec} {ph nid : Nat},
+    Sim C st cs ph nid → orderRun st nid tr = .ok stf →
+      cAll ordChk ph cs (absTrace C st nid tr) ∧
+      Sim C stf (crun cs (absTrace C st nid tr)) (phRun ph cs (absTrace C st nid tr)) (nid + tr.length) := by
+  induction tr with
+  | nil =>
+    intro st stf cs ph nid h hr
+    simp only [orderRun] at hr
+    injection hr with hr
+    subst hr
+    exact ⟨trivial, h⟩
+  | cons l rest ih =>
+    intro st stf cs ph nid h hr
+    simp only [orderRun] at hr
+    cases hstep : orderStep st nid l with
+    | error msg => rw [hstep] at hr; cases hr
+    | ok st1 =>
+      rw [hstep] at hr
+      obtain ⟨hc1, hs1⟩ := orderStep_sim C h l hstep
+      obtain ⟨hc2, hs2⟩ := ih hs1 hr
+      simp only [absTrace, hstep]
+      rw [cAll_append, crun_append, phRun_append]
+      refine ⟨⟨hc1, hc2⟩, ?_⟩
+      have : nid + (l :: rest).length = nid + 1 + rest.length := by simp; omega
+      rw [this]
+      exact hs2
+
+theorem minv_init (st : OrderSt) (hp : st.pend = []) (hs : st.syncs = []) : MInv st 0 := by
+  refine ⟨?_, ?_, ?_, ?_⟩
+  · intro p h; rw [hp] at h; cases h
+  · intro s h; rw [hs] at h; cases h
+  · rw [hp]; exact List.nodup_nil
+  · intro s h; rw [hs] at h; cases h
+
+/-- the monitor's initial state corresponds to the flushed disk in phase 0 -/
+theorem sim_init (d0 : Disk Content MetaRec WalRec LogRec) : Sim C {} (cinit d0) 0 0 :=
+  ⟨rfl, .nil, rfl, by omega, fun h => by omega, minv_init {} rfl rfl⟩
+
+/-- the initial state of the recovery monitor corresponds to a flushed disk in phase 2 -/
+theorem sim_init_recovery (d : Disk Content MetaRec WalRec LogRec) :
+    Sim C { phase := 2, walWritten := true } (cinit d) 2 0 :=
+  ⟨rfl, .nil, rfl, by omega, fun h => by omega, minv_init _ rfl rfl⟩
+
+/-- **monitor ⇒ order discipline** (`checkOrder`): if the order monitor accepts the real trace `tr` of an operation, then
+for every choice of contents and every start disk the abstracted concurrent trace passes the order discipline `ordChk`
+from the flushed start state; the phase it ends in is the monitor's and is not 1 (the operation does not return with the
+meta page volatile); what is left volatile is what the monitor reports as pending. -/
+theorem checkOrder_ok_ordChk (tr : List IoEv2) (st : OrderSt) (h : checkOrder tr = .ok st)
+    (d0 : Disk Content MetaRec WalRec LogRec) :
+    cAll ordChk 0 (cinit d0) (absTrace C {} 0 tr) ∧
+    phRun 0 (cinit d0) (absTrace (LogRec := LogRec) C {} 0 tr) = st.phase ∧ st.phase ≠ 1 ∧
+    (crun (cinit d0) (absTrace C {} 0 tr)).vol = st.pend.filterMap (absP C) := by
+  unfold checkOrder at h
+  cases hr : orderRun {} 0 tr with
+  | error msg => rw [hr] at h; cases h
+  | ok st1 =>
+    rw [hr] at h
+    simp only at h
+    split at h
+    · cases h
+    · rename_i hne
+      injection h with h
+      subst h
+      obtain ⟨hc, hs⟩ := orderRun_sim C tr (sim_init C d0) hr
+      refine ⟨hc, hs.phase.symm, ?_, hs.vol⟩
+      simpa using hne
+
+/-- **monitor ⇒ order discipline** (`checkRecoveryOrder`): the trace of a recovery passes the discipline of phase 2 -/
+theorem checkRecoveryOrder_ok_ordChk (tr : List IoEv2) (st : OrderSt) (h : checkRecoveryOrder tr = .ok st)
+    (d : Disk Content MetaRec WalRec LogRec) :
+    cAll ordChk 2 (cinit d) (absTrace C { phase := 2, walWritten := true } 0 tr) ∧
+    (crun (cinit d) (absTrace C { phase := 2, walWritten := true } 0 tr)).vol = st.pend.filterMap (absP C) := by
+  unfold checkRecoveryOrder at h
+  obtain ⟨hc, hs⟩ := orderRun_sim C tr (sim_init_recovery C d) h
+  exact ⟨hc, hs.vol⟩
+
 end sim
 end Nomt.Store
